@@ -1,2 +1,62 @@
-(* C07 (theorems added as proved). *)
-From VF Require Import Base.Prelude Model.Sflow.
+(* C07 — sFlow samples and counters are decoded field-for-field.
+   (1) the field sequences the Go decoder reads and the member order of its structures, REGENERATED from
+       the source, are those of the sFlow v5 specification (a swapped, dropped, duplicated or widened
+       field breaks one of these equalities);
+   (2) any structure read through such a sequence yields exactly its wire values, at any position;
+   (3) a counter sample's records — any number and order of the six supported kinds and of unsupported
+       ones — decode to exactly the wire values, unsupported ones being skipped by their declared length.
+   The flow-sample records (sampled packet header breakdown, extended switch / router) and the
+   datagram-level composition are tied by the correspondence run against a specification-built
+   generator; they are not yet theorems (label: partial). *)
+From VF Require Import Base.Prelude Base.Json Model.Layout Model.JsonPieces Model.Sflow Spec.SflowWire
+  Proofs.SflowLayouts Proofs.SflowFidelity.
+From VF Require Gen.Layouts.
+Module G := VF.Gen.Layouts.
+
+Theorem C07_layouts_are_the_specified_ones :
+  (G.sf_flow_sample_layout = flow_sample /\ G.sf_flow_sample_fields = members flow_sample) /\
+  (G.sf_counter_sample_layout = counter_sample /\ G.sf_counter_sample_fields = members counter_sample) /\
+  (G.sf_ext_switch_layout = ext_switch /\ G.sf_ext_switch_fields = members ext_switch) /\
+  (G.sf_generic_layout = generic /\ G.sf_generic_fields = members generic) /\
+  (G.sf_ethernet_layout = ethernet /\ G.sf_ethernet_fields = members ethernet) /\
+  (G.sf_tokenring_layout = tokenring /\ G.sf_tokenring_fields = members tokenring) /\
+  (G.sf_vg_layout = vg /\ G.sf_vg_fields = members vg) /\
+  (G.sf_vlan_layout = vlan /\ G.sf_vlan_fields = members vlan) /\
+  (G.sf_processor_layout = processor /\ G.sf_processor_fields = members processor).
+Proof.
+  repeat split; first [apply tie_flow_sample | apply tie_counter_sample | apply tie_ext_switch | apply tie_generic
+                      | apply tie_ethernet | apply tie_tokenring | apply tie_vg | apply tie_vlan | apply tie_processor].
+Qed.
+Print Assumptions C07_layouts_are_the_specified_ones.
+
+Theorem C07_structure_fidelity : forall L vs pre post, fits_s L vs ->
+  sread_layout L {| sd := pre ++ enc_layout L vs ++ post; sp := len pre |}
+  = Ok (named_s L vs, {| sd := pre ++ enc_layout L vs ++ post; sp := len pre + layout_size L |}).
+Proof. exact sread_layout_at. Qed.
+Print Assumptions C07_structure_fidelity.
+
+Theorem C07_counter_records_fidelity : forall recs pre post m fuel,
+  Forall crec_wf recs -> (length recs < fuel)%nat ->
+  counter_records generic ethernet tokenring vg vlan processor
+     (members generic) (members ethernet) (members tokenring) (members vg) (members vlan) (members processor)
+     fuel (len recs) {| sd := pre ++ flat_map enc_crec recs ++ post; sp := len pre |} m
+  = Ok (fold_left (fun acc c => crec_effect c acc) recs m,
+        {| sd := pre ++ flat_map enc_crec recs ++ post; sp := len pre + len (flat_map enc_crec recs) |}).
+Proof. exact counter_records_fidelity. Qed.
+Print Assumptions C07_counter_records_fidelity.
+
+(* non-vacuity: a VLAN counter record between an unsupported record and a processor record *)
+Example C07_instance :
+  let recs := [CUnknown 77 [1; 2; 3; 4]; CKnown 5 "Vlan" vlan [10; 1000000; 20; 30; 40; 50]; CKnown 1001 "Proc" processor [1; 2; 3; 4; 5]] in
+  Forall crec_wf recs /\
+  fst (match counter_records generic ethernet tokenring vg vlan processor
+         (members generic) (members ethernet) (members tokenring) (members vg) (members vlan) (members processor)
+         5 3 {| sd := [9; 9] ++ flat_map enc_crec recs ++ [7]; sp := 2 |} [] with Ok x => x | _ => ([], {| sd := []; sp := 0 |}) end)
+  = [("Proc"%string, JObj [("CPU5s"%string, JNum 1); ("CPU1m"%string, JNum 2); ("CPU5m"%string, JNum 3); ("TotalMemory"%string, JNum 4); ("FreeMemory"%string, JNum 5)]);
+     ("Vlan"%string, JObj [("ID"%string, JNum 10); ("Octets"%string, JNum 1000000); ("UnicastPackets"%string, JNum 20); ("MulticastPackets"%string, JNum 30);
+                           ("BroadcastPackets"%string, JNum 40); ("Discards"%string, JNum 50)])].
+Proof.
+  cbn zeta. split.
+  - repeat constructor; cbn; try lia; try reflexivity.
+  - vm_compute. reflexivity.
+Qed.
